@@ -74,9 +74,30 @@ def run(ctx):
     for i in range(30 if quick else 600):
         ents = r.sample(tricky, r.randrange(2, len(tricky) + 1))
         cases.append(case('k%d' % i, 'determ-entities', ['store'] + [['ent', e, ['parents'] + r.sample(ents, r.randrange(0, 3)), ['attrs'], ['tags']] for e in ents], gen.vset(ents)))
+    # batch authorization: the same template, variables and policies give the same multiset of results on every repetition
+    import props.c05 as c05
+    import props.c06 as c06
+    nb = 0
+    for i in range(150 if quick else 4000):
+        c, meta = c05.gen_case(r, i, 'none')
+        cases.append(c.replace(' batch ', ' determ-batch ', 1).replace('(case b', '(case d', 1))
+        nb += 1
+    # a composite request part that holds an ignored entry AND a variable, consumed whole by ==, contains, in, or projected
+    C = ['var', 'context']
+    for fields in ([('debug', c06.ign()), ('tier', c06.var('n'))], [('a', c06.ign()), ('b', c06.var('n')), ('c', c06.var('m'))],
+                   [('s', gen.vset([c06.ign(), c06.var('n'), gen.vlong(7)]))], [('r', gen.vrec([('x', c06.ign()), ('y', c06.var('n'))])), ('z', c06.var('m'))]):
+        for cond in (['eq', C, lit(gen.vrec([(k, gen.vlong(1)) for k, _ in fields]))], ['has', C, S(fields[0][0])],
+                     ['eq', ['access', C, S(fields[-1][0])], lit(gen.vlong(1))], ['contains', ['mkset', C], C],
+                     ['eq', ['mkrec', [S('k'), C]], ['mkrec', [S('k'), lit(gen.vlong(1))]]], ['in', lit(c06.UA), ['mkset', lit(c06.UA), C]]):
+            for eff in ('permit', 'forbid'):
+                nb += 1
+                pols = [['policy', S('p0'), eff, ['all'], ['all'], ['all'], ['conds', ['when', cond]]],
+                        ['policy', S('p1'), 'permit', ['all'], ['all'], ['all'], ['conds']]]
+                cases.append(case('dt%d' % nb, 'determ-batch', c06.STORE, ['req', c06.UA, c06.ACT, c06.DOC, gen.vrec(fields)],
+                                  ['vars', [S('n'), gen.vlong(1), gen.vlong(2)], [S('m'), gen.vlong(1), gen.vlong(3)]], ['policies'] + pols, ['mode', 'none']))
     ctx.rule = ('each case is run 40 times in one process with entity maps and policy sets rebuilt in shuffled insertion order: expression '
                 'evaluation (value or error MESSAGE), authorization (decision, set of reasons, set of errors incl. messages), policy-set / policy / '
-                'entity-map / value encoders (bytes), decode-then-encode from JSON and from text (bytes). Includes record literals with several '
+                'entity-map / value encoders (bytes), decode-then-encode from JSON and from text (bytes), batch authorization (status, callbacks, multiset of results; templates that mix ignored entries and variables inside one composite). Includes record literals with several '
                 'failing fields, sets, `in` over sets, 1-6 policy sets, annotated policies. non-trivial = the case contains a map-backed collection')
     go = lib.run_go(cases, 'determ', ctx.workdir, timeout_ms=60000)
     bad = 0
